@@ -122,7 +122,7 @@ fn stress_strategy(tier: Tier) -> BoxedStrategy<RlCase> {
         Tier::Quick => 4_000u32,
         Tier::Thorough => 30_000,
     };
-    (0u8..3, 2usize..=8, prop_oneof![2 => Just(None), 1 => (1usize..=2000).prop_map(Some)], prop_oneof![2 => Just(0u64), 1 => 1u64..=5])
+    (0u8..3, 2usize..=8, prop_oneof![4 => Just(None), 2 => (1usize..=2000).prop_map(Some), 1 => (65_000usize..=70_000).prop_map(Some)], prop_oneof![2 => Just(0u64), 1 => 1u64..=5])
         .prop_map(move |(window, threads, limit, timeout_ms)| RlCase {
             window,
             limit: 1,
@@ -143,7 +143,11 @@ fn stress_strategy(tier: Tier) -> BoxedStrategy<RlCase> {
             stress: Some(RlStress {
                 window,
                 threads,
-                iters,
+                // enough calls to go past a large limit
+                iters: match limit {
+                    Some(l) if l > 60_000 => iters.max(((l + 2_000) / threads) as u32),
+                    _ => iters,
+                },
                 limit,
                 // a limited window with a non-zero timeout would make callers wait for a window
                 // that never comes
